@@ -52,6 +52,8 @@ func vfBuildReq(r vfExpReq) proto.Message {
 		streamDef.ResponseData = [][]byte{r.RespData}
 	}
 	switch r.Type {
+	case "unimplemented":
+		return &conformancev1.UnimplementedRequest{} // no padding field at all: no size is reachable but its own
 	case "unary":
 		return &conformancev1.UnaryRequest{ResponseDefinition: unaryDef, RequestData: r.Data}
 	case "idempotent":
@@ -67,6 +69,9 @@ func vfBuildReq(r vfExpReq) proto.Message {
 
 func vfSetData(m proto.Message, data []byte) {
 	fd := m.ProtoReflect().Descriptor().Fields().ByName("request_data")
+	if fd == nil {
+		return
+	}
 	if len(data) == 0 {
 		m.ProtoReflect().Clear(fd)
 		return
@@ -76,12 +81,18 @@ func vfSetData(m proto.Message, data []byte) {
 
 func vfGetData(m proto.Message) []byte {
 	fd := m.ProtoReflect().Descriptor().Fields().ByName("request_data")
+	if fd == nil {
+		return nil
+	}
 	return m.ProtoReflect().Get(fd).Bytes()
 }
 
 // vfReachable: brute force over padding lengths (size is monotone in the
 // padding length, with a jump of 2 at varint boundaries).
 func vfReachable(orig proto.Message, target int64) bool {
+	if orig.ProtoReflect().Descriptor().Fields().ByName("request_data") == nil {
+		return false // nothing to pad with: a size directive cannot be honoured (the runner rejects it)
+	}
 	m := proto.Clone(orig)
 	vfSetData(m, nil)
 	base := int64(proto.Size(m))
@@ -208,7 +219,7 @@ func vfBrief(c vfC19Case) string {
 	return s
 }
 
-var vfReqTypes = []string{"unary", "idempotent", "client-stream", "server-stream", "bidi"}
+var vfReqTypes = []string{"unary", "idempotent", "client-stream", "server-stream", "bidi", "unary", "idempotent", "client-stream", "server-stream", "bidi", "unimplemented"}
 
 func vfGenExpReq(t *rapid.T) vfExpReq {
 	r := vfExpReq{Type: rapid.SampledFrom(vfReqTypes).Draw(t, "type"), Headers: rapid.IntRange(0, 3).Draw(t, "headers")}
